@@ -140,6 +140,8 @@ class Model:
         self.abort = False  # a handler raised during the current command's delivery
         self.raised_tag = None
         self.any_raised = False
+        self.mid_dispose = False  # C20 opt-in: an observer disposed the subject during the current command's delivery
+        self.peek_len = lambda oid: None  # set by run_history: number of notifications the real observer has after the command
         # evidence
         self.flags = set()
         if self.clock not in (None, "test"):
@@ -222,6 +224,16 @@ class Model:
                 self.cmd_terminal(["C"])
             return
         self.flags.add("fired:" + k)
+        if k == "dispose_subject":
+            # opt-in behaviour (only histories(..., dispose_cb=True) / an alphabet naming it produce it): the observer
+            # calls subject.dispose() from inside its callback, i.e. possibly in the middle of a broadcast
+            if self.kind != "subject":
+                raise HarnessError("dispose_subject behaviour is only modelled for kind 'subject'")
+            self.flags.add("incb-dispose:" + ("in-subscribe" if o.in_subscribe else ("next" if notif[0] == "N" else "terminal")))
+            self.disposed = True
+            self.live = []
+            self.mid_dispose = True
+            return
         if k == "unsub_self":
             if notif[0] == "N":
                 self.flags.add("incb-unsub-live")
@@ -332,6 +344,7 @@ class Model:
         self.raised_of = raised_of
         self.abort = False
         self.raised_tag = None
+        self.mid_dispose = False
         ok = ("plain", "unsub_self") if self.kind == "replay" else ("plain", "unsub_self", "unsub_other", "sub_new")
         self.cands = [o.oid for o in self.live if "." not in o.oid and o.beh["k"] in ok]
 
@@ -396,8 +409,34 @@ class Model:
             if self.abort:
                 self._optional(o, [n])
                 continue
+            if self.mid_dispose:
+                self._after_dispose(o, [n])
+                continue
             self._deliver(o, n)
         return None
+
+    def _after_dispose(self, o, items):
+        """An observer earlier in this snapshot disposed the subject ('dispose_subject' behaviour).  The statement fixes
+        the recipients when the call is made, dispose() is documented as unsubscribing all observers: both 'the rest of
+        the snapshot still gets THIS notification' and 'it gets nothing' are accepted -- decided by looking at whether
+        the real observer received anything in this command -- but if something is delivered it must be this
+        notification (the ordinary list comparison then applies), and the observer's own in-callback action follows."""
+        if o.ignored:
+            return
+        have = self.peek_len(o.oid)
+        if have is None:
+            raise HarnessError("dispose_subject behaviour needs run_history's peek_len")
+        self.flags.add("snapshot-rest-after-incb-dispose:" + ("next" if items[-1][0] == "N" else ("error" if items[-1][0] == "E" else "completed")))
+        if have > len(o.received):
+            self.flags.add("delivered-after-incb-dispose")
+            for it in items:
+                if o.stopped:
+                    break
+                self._receive(o, it)
+        else:
+            self.flags.add("skipped-after-incb-dispose")
+            if items[-1][0] != "N":
+                o.stopped = True
 
     def _optional(self, o, items):
         """A handler raised earlier in this delivery: whether the remaining observers of the snapshot still get the
@@ -429,6 +468,12 @@ class Model:
             if self.abort:
                 if not o.stopped:
                     self._optional(o, ([self.value] if with_value else []) + [t])
+                continue
+            if self.mid_dispose:
+                if o.stopped:
+                    self.flags.add("skipped-unsubscribed-in-snapshot")
+                else:
+                    self._after_dispose(o, [t])
                 continue
             if with_value and not o.stopped:
                 self._receive(o, self.value)
@@ -551,6 +596,8 @@ class Driver:
                 self.recs[v].unsubscribe()
         elif k == "sub_new":
             self.subscribe(Rec(self, rec.oid + ".c", b["child"]), False)
+        elif k == "dispose_subject":
+            self.subject.dispose()
         elif k == "raise":
             if rec.oid == self.raiser:
                 raise Tagged("obs:" + rec.oid)
@@ -607,6 +654,7 @@ def run_history(kind, case, check_observers_state=False):
     m = Model(kind, cfg)
     subj = drv.subject
     raised_of = lambda oid: drv.recs[oid].sub_raised if oid in drv.recs else None  # noqa
+    m.peek_len = lambda oid: len(drv.recs[oid].received) if oid in drv.recs else 0  # noqa  (used only after an in-callback dispose)
     m.raise_ok = kind != "replay" and all(c[1]["k"] in ("plain", "raise") for c in cmds if c[0] == "sub")
     m.emit_ok = kind == "replay" and not any(c[0] == "sub" and c[1]["k"] in ("unsub_other", "sub_new") for c in cmds)
     steps = list(cmds)
@@ -727,6 +775,8 @@ def nontrivial(kind, flags):
     f = flags
     if "delivered-after-raise" in f:
         return True
+    if "delivered-after-incb-dispose" in f or "skipped-after-incb-dispose" in f:
+        return True  # only produced by the opt-in 'dispose_subject' behaviour
     if kind == "subject":
         return "sub-after-next" in f and ("incb-unsub-live" in f or "late-sub-after-error" in f or "late-sub-after-completed" in f)
     if kind == "behavior":
@@ -769,6 +819,8 @@ _RS = st.builds(lambda a: {"k": "raise", "at": a}, st.sampled_from([0, 0, 0, 1, 
 _SUB = st.builds(lambda b: ["sub", b], BEHAVIOURS)
 _SUB_RAISE = st.builds(lambda b: ["sub", b], st.one_of(_PLAIN, _RS))
 _SUB_RE = st.builds(lambda b: ["sub", b], REENTRANT_BEHAVIOURS)
+_DS = st.builds(lambda a: {"k": "dispose_subject", "at": a}, st.sampled_from([0, 0, 0, 1, 1, 2, 3]))
+_SUB_DS = st.builds(lambda b: ["sub", b], st.one_of(_PLAIN, _PLAIN, _US, _UO, _SN, _DS, _DS))
 _UNSUB = st.builds(lambda i: ["unsub", i], st.integers(0, 7))
 _NEXT = st.builds(lambda v: ["next", v], st.sampled_from(NAMES))
 _ERROR = st.builds(lambda t: ["error", t], st.sampled_from(["e1", "e2"]))
@@ -781,7 +833,7 @@ _ADV = st.builds(lambda d: ["adv", d], st.sampled_from([0, 0, 1, 1, 1, 2, 3, 5])
 _BY_OP = {"sub": _SUB, "next": _NEXT, "unsub": _UNSUB, "adv": _ADV, "error": _ERROR, "completed": _COMPLETED, "dispose": _DISPOSE, "fail": _FAIL}
 
 
-def commands(kind, active_only=False, falsy_error=False, reentrant=False, raising=False):
+def commands(kind, active_only=False, falsy_error=False, reentrant=False, raising=False, dispose_cb=False):
     """One command.  Weights are realised with sampled_from over a repeated op list (one_of would de-duplicate
     repeated branches).  Terminals and, even more, dispose are rare: what follows them only exercises the
     late-subscriber / DisposedException clauses."""
@@ -798,6 +850,10 @@ def commands(kind, active_only=False, falsy_error=False, reentrant=False, raisin
         by_op["sub"] = _SUB_RE
     if raising:
         by_op["sub"] = _SUB_RAISE
+    if dispose_cb:
+        by_op["sub"] = _SUB_DS
+        if not active_only:
+            ops = ops + ["error"] * 4 + ["completed"] * 2 + ["fail"]
 
     @st.composite
     def _cmd(draw):
@@ -822,13 +878,13 @@ def _sized(elem, mins, hi):
     return st.one_of(*[st.lists(elem, min_size=lo, max_size=hi) for lo in mins if lo <= hi])
 
 
-def histories(kind, max_cmds, falsy_error=False, reentrant=False, clock=None, raising=False):
+def histories(kind, max_cmds, falsy_error=False, reentrant=False, clock=None, raising=False, dispose_cb=False):
     """An 'active' prefix (no terminal, no dispose) followed by a general tail; one JSON list, shrinks as one value."""
     half = max(1, max_cmds // 2)
     cmds = st.builds(
         lambda a, b: a + b,
-        _sized(commands(kind, active_only=True, reentrant=reentrant, raising=raising), (0, 6, 14, 30, 50), half),
-        _sized(commands(kind, falsy_error=falsy_error, reentrant=reentrant, raising=raising), (1, 5, 12, 25), half),
+        _sized(commands(kind, active_only=True, reentrant=reentrant, raising=raising, dispose_cb=dispose_cb), (0, 6, 14, 30, 50), half),
+        _sized(commands(kind, falsy_error=falsy_error, reentrant=reentrant, raising=raising, dispose_cb=dispose_cb), (1, 5, 12, 25), half),
     )
     cfgs = configs(kind)
     if clock is not None:
